@@ -224,7 +224,7 @@ def run(ctx, out):
             it = items[bad[0]]
             out.violation('C15:corr_names', f'model and pane disagree on name derivation for {it[:4]!r}: pane {it[4]!r}', {'correspondence': 'corr_names', 'case': repr(it)}, no_input=True)
     out.evaluations += table_check(out)
-    convprop.run(ctx, out, PROP, lambda c: [], cfg={'weights': {'class': 10.0}}, sizes={'quick': (150, 4, 3), 'thorough': (3000, 5, 3)})
+    convprop.run(ctx, out, PROP, lambda c: [], cfg={'naming_density': 2.5, 'weights': {'class': 10.0}}, sizes={'quick': (150, 4, 3), 'thorough': (3000, 5, 3)})
 
 
 def replay(rep, out):
